@@ -32,7 +32,7 @@ var propInfo = map[string]propMeta{
 	"C17": {"exploration", "cache (hash map + LRU) instrumented at statement granularity; 2..6 simulated goroutines doing Get/Release/Delete/Evict/EvictNS/EvictAll/SetCapacity/Close over a small key space incl. table growth/shrink; oracles: one live value per key, constructor once per residency, finaliser exactly once and only after all handles released, deletion callbacks exactly once, retained charge <= capacity at quiescence, no hang. A 'fill' operation grows the hash table (520-2200 nodes) right before Close/EvictAll/SetCapacity(0), so that these meet buckets that are still being migrated; after Close with every handle released each value is finalised exactly once. Non-trivial: >=2 goroutines. Distinct by event-log hash."},
 	"C18": {"exploration", "lifecycle programs after arbitrary histories: second Open on an owned storage, read-only open (no mutating storage call at all, yet all data readable), SetReadOnly, every public method after Close (closed error, no storage call), double Close, released snapshots/iterators, calls racing Close. Open guards: read-only / ErrorIfMissing Open of an empty storage fails and creates nothing, ErrorIfExist on an existing DB fails and changes nothing. After SetReadOnly (40% of those cases while a flush is failing and being retried under table-file faults) every write entry point with every Sync/NoWriteMerge combination, OpenTransaction and CompactRange answer ErrReadOnly. One case in 7 lays the settled image out in a real directory as file storage does, adds crash leftovers (pending CURRENT.<n>, CURRENT.bak, damaged/missing CURRENT, stray files) and requires a read-only OpenFile + Open to serve all data and leave every directory entry byte-identical. Reads racing Close (Get, Has, Snapshot.Get/Has) must find keys that were present all along or return the closed error. Non-trivial: data existed in both journal and tables or a race occurred. Distinct by event-log hash."},
 	"C19": {"exploration", "settled DB images with CURRENT/manifest removed, truncated or garbage and seeded damaged data blocks, then leveldb.Recover under the scheduler; oracle: exact contents without table damage; with damage: newest version in an undamaged block is returned, nothing invented. 40% of the cases use explicit Options.Strict levels (block checksums on, StrictRecovery and StrictReader off). 25%: the filter policy is changed (old one kept in AltFilters) right before the shutdown that precedes Recover, and one Options value serves the last session and Recover. Non-trivial: a table existed. Distinct by event-log hash."},
-	"C20": {"exploration", "programs that scribble over every argument buffer right after each call and over every returned Get value, with iterator Key/Value checked stable, under buffer pool/block cache/compression knobs; mismatches are confirmed against a control run without scribbling. Concurrent cases: the leader's batch must be byte-identical after Write. Every value returned by a Get is kept and must not change later. Concurrent cases (40%, mostly storm mode) issue writes through Write, reuse the batch the moment Write returns (a poison record that must never reach the DB) and require an acknowledged batch to be in the journal already. Non-trivial: a table was written. Distinct by event-log hash."},
+	"C20": {"exploration", "programs that scribble over every argument buffer right after each call and over every returned Get value, with iterator Key/Value checked stable, under buffer pool/block cache/compression knobs; mismatches are confirmed against a control run without scribbling. Concurrent cases: the leader's batch must be byte-identical after Write. Every value returned by a Get is kept and must not change later. Concurrent cases (50%, mostly storm mode with slow clients) issue writes through Write, reuse the batch the moment Write returns (a poison record that must never reach the DB) and require an acknowledged batch to be in the journal already. Non-trivial: a table was written. Distinct by event-log hash."},
 }
 
 // componentsFor: which code ran for real and which was a stub, per property.
